@@ -282,6 +282,10 @@ def gen_section(rng, le, asz, eh, maxins=25):
         else:
             f.loc_raw = rng.choice([0, 0x1000, 2 ** (8 * asz - 1), rng.getrandbits(8 * asz - 2)])
             f.range = rng.choice([0, 1, 0x1000, 2 ** (8 * asz) - 1])
+    if eh and len(items) > 1 and rng.random() < 0.15:
+        z = Rec()
+        z.kind = 'zero'         # a terminator with entries behind it (each input's crtend in a relocatable link)
+        items.insert(rng.randint(1, len(items) - 1), z)
     if eh and rng.random() < 0.4:
         z = Rec()
         z.kind = 'zero'
